@@ -43,6 +43,27 @@ def crash_safe(ctx) -> None:
     ctx.count("paths", len(paths))
     # the advertised path: what resume() is told to open = self.autosave_file (possibly through a local alias)
     advertised = ("attr", SELF, "autosave_file")
+    # every file the snapshot is written to is the advertised file or a sibling of it (`with_suffix`): same directory,
+    # hence the same file system, hence the final rename is atomic.  A temporary file elsewhere (tempfile.gettempdir())
+    # turns the move into copy-then-delete, which truncates the advertised file first.
+    foreign = None
+    for p in paths:
+        for e in p.events:
+            if e.kind == "with_enter":
+                v = strip_typed(e.value)
+                if v[0] == "call" and v[1] == "open" and v[2]:
+                    mode = v[2][1][1] if len(v[2]) > 1 and v[2][1][0] == "const" else dict(v[3]).get("mode", ("const", "r"))[1]
+                    if any(ch in str(mode) for ch in "wax+") and _pkey(v[2][0], advertised) is None:
+                        foreign = f"open({show(v[2][0])[:70]}, {mode!r}) at line {e.lineno}"
+            elif e.kind == "call" and (e.name in ATOMIC_MOVES or e.name in NONATOMIC_COPIES) and len(e.pos) >= 2:
+                if _pkey(e.pos[1], advertised) == ("P", None) and _pkey(e.pos[0], advertised) is None:
+                    foreign = f"{e.name}({show(e.pos[0])[:60]}, …) at line {e.lineno}"
+    ctx.ob("SAVE-window", "the snapshot is written next to the advertised file", f.loc(), foreign is None,
+           "the temporary snapshot is a sibling of the advertised autosave file (atomic rename possible)" if foreign is None else
+           f"save_simulation uses {foreign}: the pending snapshot does not live next to the advertised file, so bringing it "
+           f"into place across file systems is a copy that truncates the last good snapshot first", entry=f.qualname)
+    if foreign is not None:
+        return
     saving = 0
     for p in paths:
         fs_events = [e for e in p.events if _is_fs(e, advertised)]
